@@ -8,6 +8,10 @@
 //     of exactly those operations (same walk, so yield sites and instructions line up):
 //     lh.Load() becomes verifBefore(lh).Load(), lh.Store(x) becomes lh.Store(verifBefore(x)),
 //     lh.CompareAndSwap(a, b) becomes lh.CompareAndSwap(a, verifBefore(b)).
+//     Mutexes (not part of the instruction set, the tie then breaks) are made schedulable too:
+//     mu.Lock() becomes verifLock(mu.TryLock) — a yield, then a yield-spin on TryLock, so a
+//     goroutine waiting for the lock just burns steps — mu.RLock() verifLock(mu.TryRLock),
+//     mu.Unlock()/RUnlock() verifUnlock(mu.Unlock) — a yield, then the unlock.
 //
 // Only the standard library is used.
 package main
@@ -39,6 +43,7 @@ type walker struct {
 	holder   string
 	sites    []site
 	other    []string            // shared-memory constructs the instruction type cannot express
+	locks    []*ast.CallExpr     // mu.Lock() / RLock() / Unlock() / RUnlock() calls
 	defs     map[string]ast.Expr // local variable -> the expression last assigned to it
 	soleExit map[*ast.IfStmt]bool
 	loopDefs map[string]bool      // variables assigned inside the current retry loop (nil: not in one)
@@ -94,8 +99,10 @@ func (w *walker) expr(e ast.Expr, loop int, inCond bool) {
 				if !w.skipping {
 					w.pc++
 				}
-			} else if sel.Sel.Name == "Lock" || sel.Sel.Name == "Unlock" || sel.Sel.Name == "RLock" || sel.Sel.Name == "RUnlock" {
+			} else if (sel.Sel.Name == "Lock" || sel.Sel.Name == "Unlock" || sel.Sel.Name == "RLock" || sel.Sel.Name == "RUnlock") && len(x.Args) == 0 {
+				// a mutex: outside the instruction set (the tie breaks), but it gets its yields
 				w.other = append(w.other, sel.Sel.Name)
+				w.locks = append(w.locks, x)
 			}
 		}
 	case *ast.ParenExpr:
@@ -483,6 +490,19 @@ func main() {
 					sel := st.call.Fun.(*ast.SelectorExpr)
 					sel.X = hook(sel.X)
 				}
+			}
+			for _, c := range w.locks {
+				nsites++
+				sel := c.Fun.(*ast.SelectorExpr)
+				helper, method := "verifUnlock", sel.Sel.Name
+				switch sel.Sel.Name {
+				case "Lock":
+					helper, method = "verifLock", "TryLock"
+				case "RLock":
+					helper, method = "verifLock", "TryRLock"
+				}
+				c.Fun = ast.NewIdent(helper)
+				c.Args = []ast.Expr{&ast.SelectorExpr{X: sel.X, Sel: ast.NewIdent(method)}}
 			}
 		}
 	}
